@@ -33,6 +33,8 @@ from vlib.gate import Gate  # noqa: E402
 
 
 class StubNetwork:
+    is_connected = False      # a reconnect re-runs Ledger.join_network(); with nothing to subscribe it only re-announces readiness
+
     def __init__(self):
         self.fail = False
         self.hang = False
@@ -80,11 +82,12 @@ def case_strategy(draw, tier):
         "strategy": draw(st.sampled_from(["sqlite", "prefer_confirmed", "only_confirmed", "standard", "branch_and_bound",
                                           "closest_match", "random_draw", None])),
         "wave1": wave1, "wave2": wave2, "flavour": flavour, "resync": draw(st.sampled_from([False, False, True])),
+        "reconnect": draw(st.sampled_from([False, False, True])),
         "choices": draw(st.lists(st.integers(0, 11), max_size=300)),
         "sticky": draw(st.booleans()),
         "choices_seed": draw(st.sampled_from([None, draw(st.integers(0, 2 ** 32))])),
         "choices2": draw(st.lists(st.integers(0, 3), max_size=60)),
-        "resolve": draw(st.lists(st.sampled_from(["accept", "accept", "release", "fail", "cancel", "timeout"]), min_size=12, max_size=12)),
+        "resolve": draw(st.lists(st.sampled_from(["accept", "accept", "release", "fail", "fail_concurrent", "fail_concurrent", "cancel", "timeout"]), min_size=12, max_size=12)),
         "resolve_order": draw(st.permutations(list(range(12)))),
     }
 
@@ -225,6 +228,11 @@ async def run_async(case, out):
                     seen.add(address)
                     await ledger.db.save_transaction_io(tx, address, hh, f'{tx.id}:{h}:')
         out.label("resync_while_held")
+    if case.get("reconnect"):
+        # the connection to the wallet server is re-established while transactions are pending: what start() registered for
+        # on_connected runs again
+        await ledger.join_network()
+        out.label("reconnect_while_held")
     # held outputs are unavailable
     avail = await available()
     for i, pts in held.items():
@@ -250,6 +258,39 @@ async def run_async(case, out):
                 pass
             ledger.network.fail = False
             del still_held[k]
+        elif how == "fail_concurrent":
+            # the broadcast is refused while another request is being built: what the refused transaction gives back may be
+            # taken by that build at once, and must then stay taken
+            ledger.network.fail = True
+            prng = _random.Random((case.get("choices_seed") or 0) + k)
+            gate_fc = Gate([prng.randrange(4) for _ in range(200)], sticky=bool(k % 2))
+            dbo = ledger.db.db
+            orig_run = dbo.run
+            dbo.run = gate_fc.wrap(orig_run)
+            spec_b = dict(case["wave2"][0] if case["wave2"] else {"kind": "pay", "amount": 1000, "funding": [0, 1], "nouts": 1},
+                          kind="pay")
+            try:
+                ta = asyncio.ensure_future(ledger.broadcast_or_release(tx))
+                tb = asyncio.ensure_future(run_build(env, spec_b, 500 + k))
+                gate_fc.task_of[ta], gate_fc.task_of[tb] = 0, 1
+                await gate_fc.drive([ta, tb])
+            finally:
+                dbo.run = orig_run
+                ledger.network.fail = False
+            if not isinstance(ta.exception(), RuntimeError):
+                out.violate("harness:refused-broadcast-did-not-raise", repr(ta.exception()))
+            del still_held[k]
+            try:
+                txb = tb.result()
+            except Exception:
+                txb = None
+            if txb is not None:
+                still_held[500 + k] = outpoints(txb)
+                txs[500 + k] = txb
+                leak = still_held[500 + k] & await available()
+                out.check(not leak, "held-output-still-available:taken-during-refused-broadcast",
+                          "%d outputs e.g. %r" % (len(leak), next(iter(leak), None)))
+                out.label("built_during_refused_broadcast")
         elif how in ("cancel", "timeout"):
             # the broadcast never completes and the caller gives up: the transaction was not broadcast, so it is abandoned
             ledger.network.hang = True
@@ -316,6 +357,6 @@ def run_case(case):
 
 PARTS = [
     Part("concurrent_builds", lambda tier: case_strategy(tier), run_case, 250, 2500, quick_shards=8, thorough_shards=16,
-         essential=("w1_built:2", "resolve:accept", "resolve:release", "resolve:fail", "resolve:cancel", "resolve:timeout", "wave2", "switches:>=10", "resync_while_held",
+         essential=("w1_built:2", "resolve:accept", "resolve:release", "resolve:fail", "resolve:cancel", "resolve:timeout", "resolve:fail_concurrent", "built_during_refused_broadcast", "reconnect_while_held", "wave2", "switches:>=10", "resync_while_held",
                     "utxos:small_change")),
 ]
